@@ -1627,10 +1627,33 @@ def isscalar(v):
     return _is_scalar(v) and v is not None
 
 
-number = (builtins.int, builtins.float)
-floating = builtins.float
-integer = builtins.int
-generic = (builtins.int, builtins.float)
+class generic:
+    """Marker classes for numpy's scalar type hierarchy (isinstance dispatch
+    is answered from a proxy's type tag by symx.loader.sym_isinstance)."""
+
+
+class number(generic):
+    pass
+
+
+class floating(number):
+    pass
+
+
+class integer(number):
+    pass
+
+
+class signedinteger(integer):
+    pass
+
+
+class unsignedinteger(integer):
+    pass
+
+
+class bool_scalar(generic):
+    pass
 
 
 def install():
